@@ -370,7 +370,7 @@ func runC18(ctx *core.Ctx) {
 	ctx.Floor("e2e_sanitize_calls", 1000)
 }
 
-var plainHTTPURL = regexp.MustCompile(`^url\\(("https?://[a-z0-9./_:-]+"|'https?://[a-z0-9./_:-]+'|https?://[a-z0-9./_:-]+)\\)`)
+var plainHTTPURL = regexp.MustCompile(`^url\(("https?://[a-z0-9./_:-]+"|'https?://[a-z0-9./_:-]+'|https?://[a-z0-9./_:-]+)\)`)
 
 // hostileContent classifies what the property forbids, judged on the value a browser reads.
 func hostileContent(v string) string {
